@@ -149,6 +149,8 @@ def render_value(fmt, rng, lang="L"):
     elif fmt == "dtd":
         if r < 0.15:
             v += " &amp; &foo;"
+        elif r > 0.93:
+            return ""                  # <!ENTITY k ""> / <!ENTITY k ''>: the empty value
         v = v.replace('"', "")
     elif fmt == "ftl":
         if r < 0.12:
@@ -248,6 +250,25 @@ def render_entity(fmt, key, value, style=0):
             return head + 'msgid ""\n"%s "\n"%s"\n%s' % (a, b, value)
         return head + 'msgid "%s"\n%s' % (msgid, value)
     raise ValueError(fmt)
+
+
+def dtd_apos_keys(rng, items, p=0.4):
+    return {it[1] for it in items if it[0] == "ent" and it[2] is not None and "'" not in it[2]
+            and rng.random() < p}
+
+
+def dtd_apos_apply(text, items, keys):
+    """the DTD file [text] rendered from [items] with the values of [keys] quoted by
+    apostrophes instead of double quotes"""
+    for it in items:
+        if it[0] == "ent" and it[1] in keys:
+            text = text.replace(render_entity("dtd", it[1], it[2]),
+                                "<!ENTITY %s '%s'>" % (it[1], it[2]), 1)
+    return text
+
+
+def dtd_apos(rng, text, items, p=0.4):
+    return dtd_apos_apply(text, items, dtd_apos_keys(rng, items, p))
 
 
 def render(fmt, items, style=0, indents=None):
@@ -681,6 +702,8 @@ def gen_case(rng, fmt=None):
             versions.append(edit_items(fmt, rng, versions[-1], nkeys, blanks=blanks))
     style = rng.randint(0, 2)
     texts = [render(fmt, v, style) for v in versions]
+    if fmt == "dtd" and rng.random() < 0.5:
+        texts = [dtd_apos(rng, t, v) for t, v in zip(texts, versions)]
     return {"fmt": fmt, "items": versions, "texts": texts}
 
 
